@@ -675,6 +675,7 @@ func tieClassifier(r *Rng, st *Stats, cf *CoqFile, n int) {
 		st.Note("classifier-class", c, got)
 	}
 	tiePlain(r, st, cf, g, ctx, n)
+	classPrograms(r, st, cf, g, ctx, n)
 	for k, v := range g.ops {
 		st.Histogram["tree:"+k] += v
 	}
